@@ -457,6 +457,20 @@ func judgePercentText(c TextCase, o *vh.Obs) {
 			results = append(results, result{"json(quoted)", *h.Percent, err})
 		}
 	}
+	if s == "" {
+		// the empty-string allowance belongs to PercentageFromString / UnmarshalText only:
+		// the JSON string "" is not a member of the published pattern
+		g := num.MakePercentage(sentinelV, sentinelE)
+		h := holder{Percent: &g}
+		if err := json.Unmarshal([]byte(`{"percent":""}`), &h); err == nil {
+			o.Failf("percent-text:accepted-invalid", "json(quoted)(\"\") accepted as value %d exp %d although the empty JSON string is not a member of the published pattern", h.Percent.Value(), h.Percent.Exp())
+		}
+		var a holder
+		a.Amount = num.MakeAmount(sentinelV, sentinelE)
+		if err := json.Unmarshal([]byte(`{"amount":""}`), &a); err == nil {
+			o.Failf("amount-text:accepted-invalid", "json(quoted)(\"\") accepted as amount %d/%d", a.Amount.Value(), a.Amount.Exp())
+		}
+	}
 	for _, r := range results {
 		if accept {
 			if r.err != nil {
